@@ -461,3 +461,5 @@ PROPS['C07']['kani'] = PROPS['C07']['kani'] + DEP_CONTAINERS
 PROPS['C09']['kani'] = PROPS['C09']['kani'] + DEP_CONTAINERS
 PROPS['C17']['kani'] = PROPS['C17']['kani'] + DEP_CONTAINERS + DEP_CBOR
 PROPS['C12']['kani'] = PROPS['C12']['kani'] + DEP_DECODE_CAP
+
+PROPS['C18']['decl'] = True
